@@ -337,6 +337,16 @@ func (r *Runner) stmt(ctx context.Context, st *syntax.Stmt) {
 	r.lastExit = r.exit
 }
 
+// isCompoundCmd reports whether a command is one of the compound commands
+// whose own exit status never triggers errexit or the ERR trap.
+func isCompoundCmd(cm syntax.Command) bool {
+	switch cm.(type) {
+	case *syntax.Block, *syntax.IfClause, *syntax.WhileClause, *syntax.ForClause, *syntax.CaseClause:
+		return true
+	}
+	return false
+}
+
 func (r *Runner) stmtSync(ctx context.Context, st *syntax.Stmt) {
 	oldIn, oldOut, oldErr := r.stdin, r.stdout, r.stderr
 	var closers []io.Closer
@@ -354,7 +364,9 @@ func (r *Runner) stmtSync(ctx context.Context, st *syntax.Stmt) {
 			closers = append(closers, cls)
 		}
 	}
+	ranCmd := false
 	if r.exit.ok() && st.Cmd != nil {
+		ranCmd = true
 		// A negated command does not trigger errexit,
 		// and neither does any command nested inside it.
 		oldNoErrExit := r.noErrExit
@@ -369,6 +381,9 @@ func (r *Runner) stmtSync(ctx context.Context, st *syntax.Stmt) {
 			r.exit.clear()
 		}
 	} else if b, ok := st.Cmd.(*syntax.BinaryCmd); ok && (b.Op == syntax.AndStmt || b.Op == syntax.OrStmt) {
+	} else if ranCmd && isCompoundCmd(st.Cmd) {
+		// The failure of a group, conditional or loop comes from a command
+		// inside it, which already triggered errexit unless it was ignored.
 	} else if !r.exit.ok() && !r.noErrExit {
 		r.trapCallback(ctx, r.callbackErr, "error")
 		// If the "errexit" option is set and a command failed, exit the shell. Exceptions:
